@@ -496,7 +496,8 @@ CLAIM = {
     "text": "Static. (1) generate_candle_from_one_minutes is interpreted on k symbolic 1m candles and equals [first ts, first open, last "
             "close, max high, min low, sum volume]; the fast simulator's inlined chunk aggregation has the same normal form. (2) All "
             "four completed-window sites have guard E % count == 0 with slice [E-count : E] (affine forms compared as polynomials); "
-            "the partial-candle count is exact for every residue of every enumerated timeframe. (3) The two timeframe tables agree "
+            "the partial-candle count (interpreted with the store's 1m count) is exact for every residue of every enumerated timeframe, also "
+            "for 3D / 1W windows of a session that does not start on the epoch grid of the timeframe. (3) The two timeframe tables agree "
             "with enums.timeframes and with the minutes their labels spell. (4) CandlesState.get_candles/get_current_candle are "
             "interpreted for 0..7 stored minutes of a 3m route: one candle per started window, forming candle = aggregation of the "
             "stored minutes of that window - also in the history where a partial candle of that window was stored at an earlier order execution (it must not be served once newer minutes arrived). (5) Fast simulator: the chunk step equals the gcd of all route timeframes (trading and data, 15 route sets), and its time loop, interpreted for session lengths 1..13 and steps 1/3/5, partitions the session into consecutive chunks that end exactly at the session length. (6) Every order execution the simulators perform themselves (both matchers, liquidation) is preceded on every path by the rebuild of the routes' candles from the stored 1m candles, so the hooks it triggers read current candles; the partial candle published at every fill is the minute so far (own open, extremes of the path travelled) over all match-loop runs; with several symbols the matcher must advance minute by minute (the fast simulator's symbol-major chunk replay is a recorded known finding). Not decided: equality of every stored candle at every observation time of a whole run.",
